@@ -90,4 +90,12 @@ theorem lenBytes_eq_all (c : UInt64) : lenBytes 8 (c <<< 3) = Spec.be64 (8 * c.t
   refine ⟨?_, ?_, ?_, ?_, ?_, ?_, ?_, ?_⟩ <;> apply UInt8.toNat_inj.mp <;>
     simp [UInt64.toNat_toUInt8, UInt64.toNat_shiftRight, UInt64.toNat_shiftLeft, Nat.shiftRight_eq_div_pow, Nat.shiftLeft_eq] <;> omega
 
+/-- only the low 64 bits of the bit length reach the length field: the byte count modulo 2^64 gives the same field -/
+theorem be64_wrap (n : Nat) : Spec.be64 (8 * (n % 2 ^ 64)) = Spec.be64 (8 * n) := by
+  simp only [Spec.be64, List.map_inj_left, List.mem_range]
+  intro k hk
+  congr 1
+  have hcases : 7 - k = 0 ∨ 7 - k = 1 ∨ 7 - k = 2 ∨ 7 - k = 3 ∨ 7 - k = 4 ∨ 7 - k = 5 ∨ 7 - k = 6 ∨ 7 - k = 7 := by omega
+  rcases hcases with h | h | h | h | h | h | h | h <;> rw [h] <;> omega
+
 end Nstd.Sha
